@@ -27,6 +27,58 @@ Definition is_hfail (h : hook) : bool := match h with HFail => true | _ => false
 Definition refusing_hook (E : env) : bool :=
   existsb (fun p : name * tdef => match snd p with TInput _ h => is_hfail h | _ => false end) E.
 
+(** precisely: coercing the literal [l] at type [t] applies a refusing hook, i.e. an object literal
+    of the request stands where an input object type with such a hook is expected *)
+Section HookHit.
+  Variable E : env.
+  Fixpoint hook_hit (l : lit) : sty -> bool :=
+    fix on_ty (t : sty) {struct t} : bool :=
+      match l with
+      | LVar _ => false
+      | LNull => false
+      | _ =>
+          match t with
+          | StNonNull t' => on_ty t'
+          | StList t' =>
+              match l with
+              | LList vs => existsb (fun v => hook_hit v t') vs
+              | _ => on_ty t'
+              end
+          | StNamed n =>
+              match aget n E with
+              | Some (TInput fields h) =>
+                  match l with
+                  | LObject fs =>
+                      is_hfail h
+                      || existsb (fun p : name * lit =>
+                                    match aget (fst p) fields with
+                                    | Some fd => hook_hit (snd p) (in_type fd)
+                                    | None => false
+                                    end) fs
+                  | _ => false
+                  end
+              | _ => false
+              end
+          end
+      end.
+
+  (** an argument literal of the request reaches a refusing hook *)
+  Definition hook_reached_args (argdefs : list (name * in_def)) (args : list (name * lit)) : bool :=
+    existsb (fun a : name * lit =>
+               match aget (fst a) argdefs with
+               | Some d => hook_hit (snd a) (in_type d)
+               | None => false
+               end) args.
+
+  (** the default value of a variable that has no raw value reaches a refusing hook *)
+  Definition hook_reached_defaults (defs : list vardef) (raw : list (name * jval)) : bool :=
+    existsb (fun def =>
+               match aget (vd_name def) raw, vd_default def with
+               | None, Some l => hook_hit l (vd_type def)
+               | _, _ => false
+               end) defs.
+End HookHit.
+
 (** a raw variable value that does not coerce, or a required variable without value and default *)
 Definition bad_variable_value (fx : fixes) (E : env) (dt : bytes -> option bytes)
            (defs : list vardef) (raw : list (name * jval)) : bool :=
@@ -46,3 +98,13 @@ Definition runtime_reason (E : env) (dt : bytes -> option bytes) (defs : list va
      end
   || refusing_hook E.
 
+
+(** the same with the hook reason made precise *)
+Definition runtime_reason_precise (E : env) (dt : bytes -> option bytes) (argdefs : list (name * in_def))
+           (defs : list vardef) (args : list (name * lit)) (raw : list (name * jval)) : bool :=
+  bad_variable_value all_fixed E dt defs raw
+  || hook_reached_defaults E defs raw
+  || match coerce_variable_values all_fixed E dt defs raw with
+     | Ok vv => null_variable vv args || absent_item_variable vv args || hook_reached_args E argdefs args
+     | _ => false
+     end.
